@@ -86,6 +86,14 @@ def gen_gfa1(rng):
         fo = rng.choice(["+", "+", "-"])
         tags = ["ID:Z:ct%d" % len(lines)] if rng.random() < 0.3 else []
         lines.append("\t".join(["C", f, fo, t, rng.choice("+-"), str(pos), ov] + tags))
+    # a circular path of one segment (it runs over a link from the segment end to the same segment)
+    selfl = [l for l in links if l[0] == l[2] and l[1] == l[3]]
+    if selfl and rng.random() < 0.6:
+        f, fo, t, to, ov = rng.choice(selfl)
+        if rng.random() < 0.5:
+            lines.append("P\tpc\t%s%s\t%s" % (f, fo, ov))
+        else:
+            lines.append("P\tpc\t%s%s\t%s" % (f, S.inv(fo), S.cigar_complement(ov)))
     # paths over links in either direction
     if links and rng.random() < 0.6:
         adj = {}
@@ -392,7 +400,7 @@ def run_1to2(case, ctx):
             items = ys[0].pos[1].split(" ")
             segs = items[0::2]
             wsegs = x.pos[1].split(",")
-            if len(x.pos[2].split(",")) == len(wsegs) and len(wsegs) > 1:
+            if len(x.pos[2].split(",")) == len(wsegs) and (len(wsegs) > 1 or x.pos[2] != "*"):
                 wsegs = wsegs + [wsegs[0]]          # a circular path returns to its first segment
             if segs != wsegs:
                 ctx.violation("path-segments-differ/1to2", "%r -> %r" % (x.text(), ys[0].text()))
@@ -407,9 +415,9 @@ def run_1to2(case, ctx):
                 gsegs = [o.name + o.orient for o in cp.value if o.line.record_type == "S"]
                 want_segs = x.pos[1].split(",")
                 nov = len(x.pos[2].split(","))
-                if nov == len(want_segs) and len(want_segs) > 1:
+                if nov == len(want_segs) and (len(want_segs) > 1 or x.pos[2] != "*"):
                     want_segs = want_segs + [want_segs[0]]
-                if gsegs != want_segs and not (len(want_segs) == 1):
+                if gsegs != want_segs:
                     ctx.violation("converted-path-visits-other-segments", "%r -> %r resolves to %r" % (x.text(), ys[0].text(), gsegs))
                     return
             ctx.count("paths_compared")
